@@ -36,6 +36,14 @@ C15_ClaimCarriesItsPromises ==
      LET o == IF Last.proto = "http" THEN Last.http ELSE Last.grpc IN
      /\ o.mesgType = Last.shape
      /\ o.promises = IF Last.shape = "resume" THEN <<"leaf", "root">> ELSE <<"root">>
+\* every promise of a successful kernel answer is rendered, in order, in the state the kernel gave it,
+\* with the same name over both protocols (answers that carry a promise of each state are in the table)
+C15_StatesRendered ==
+  (IsObs /\ NoDrop(Last) /\ Last.via = "response" /\ Last.status \in {20000, 20100}
+         /\ (Last.op = "ClaimTask" => Last.status = 20100)) =>   \* a claim hands out promises only when it succeeds
+     \* (an http 204 has no body by definition)
+     /\ (Last.proto = "http" /\ Last.http.bodyKind = "resource") => Last.http.states = StateNames(Last.kstates)
+     /\ Last.proto = "grpc" => Last.grpc.states = StateNames(Last.kstates)
 \* equivalent requests are translated into the same kernel request
 C15_SameRequest == IsPair => (Last.http.kind = Last.grpc.kind /\ Last.http.args = Last.grpc.args /\ Last.http.kind = Last.op)
 
